@@ -511,6 +511,15 @@ theorem cleanLoop_sublist (items : Dict) (done todo removed : List Rule) :
 theorem cleanNamespaces_sublist (l : List Rule) : (cleanNamespaces l).1.Sublist l := by
   simpa [cleanNamespaces] using cleanLoop_sublist (nsDict l) [] l []
 
+theorem removeId_sublist (i : Nat) (l : List Rule) : (removeId i l).Sublist l := by
+  induction l with
+  | nil => exact List.Sublist.refl _
+  | cons r rs ih =>
+    unfold removeId
+    split
+    · exact List.sublist_cons_self r rs
+    · exact List.Sublist.cons₂ r ih
+
 /-- **insertRule's hierarchy check keeps the order**, whatever the outcome (accepted, refused, raised half-way) -/
 theorem insertCore_topOK (st : St) (dict : Dict) (r : Rule) (idx : Nat) (inOrder clean track : Bool)
     (h : TopOK st.rules)
@@ -535,7 +544,7 @@ theorem insertCore_topOK (st : St) (dict : Dict) (r : Rule) (idx : Nat) (inOrder
         · have hsub := cleanNamespaces_sublist (pyInsert st.rules i r)
           dsimp only
           split
-          · exact topOK_sublist hins hsub
+          · exact topOK_sublist hins ((removeId_sublist _ _).trans hsub)
           · split
             · show TopOK (adoptId r.id _)
               unfold TopOK; rw [kindsOf_adoptId]; exact topOK_sublist hins hsub
@@ -580,7 +589,7 @@ theorem insertCore_kinds (st : St) (dict : Dict) (r : Rule) (idx : Nat) (inOrder
         · have hsub := cleanNamespaces_sublist (pyInsert st.rules i r)
           dsimp only
           split
-          · exact hins i r rfl _ hsub
+          · exact hins i r rfl _ ((removeId_sublist _ _).trans hsub)
           · split
             · intro k hk
               have : k ∈ kindsOf (adoptId r.id (cleanNamespaces (pyInsert st.rules i r)).1) := hk
@@ -986,6 +995,21 @@ theorem instList_linksOKL (p : Option Nat) (n : Nat) : (l : List Spec) → Rule.
     exact ⟨inst_linksOK p n s, instList_linksOKL p _ ss⟩
 end
 
+theorem inst_id (p : Option Nat) (n : Nat) (s : Spec) : (Spec.inst p n s).1.id = n := by
+  cases s; simp [Spec.inst]
+
+mutual
+theorem inst_next (p : Option Nat) (n : Nat) : (s : Spec) → n < (Spec.inst p n s).2
+  | ⟨k, pre, uri, enc, used, kids⟩ => by
+    simp only [Spec.inst]
+    exact Nat.lt_of_lt_of_le (Nat.lt_succ_self n) (instList_next (some n) (n + 1) kids)
+theorem instList_next (p : Option Nat) (n : Nat) : (l : List Spec) → n ≤ (Spec.instList p n l).2
+  | [] => by simp [Spec.instList]
+  | s :: ss => by
+    simp only [Spec.instList]
+    exact Nat.le_trans (Nat.le_of_lt (inst_next p n s)) (instList_next p _ ss)
+end
+
 /-! ### parsed children -/
 
 theorem f_media_text : ∀ k : Kind, k ≠ .vars → k ∉ Gen.mediaTextRejects → k ≠ .margin → allowedIn .media k = true := by
@@ -1080,6 +1104,70 @@ theorem parseMediaKids_ok (raising : Bool) (d : Dict) (cid n : Nat) :
         have h2 := parseMediaKids_ok raising d cid rn.2 ss rest hrest
         simp only [Rule.kidsOKL, Rule.linksOKL, Bool.and_eq_true]
         exact ⟨⟨⟨h1.1, h1.2.1⟩, h2.1⟩, h1.2.2, h2.2⟩
+end
+
+theorem parsePageKids_next (raising : Bool) (cid : Nat) :
+    (n : Nat) → (l : List Spec) → (ks : List Rule × Nat) → parsePageKids raising cid n l = .ok ks → n ≤ ks.2
+  | n, [], ks, h => by
+    simp only [parsePageKids] at h; injection h with h; subst h; exact Nat.le_refl _
+  | n, s :: ss, ks, h => by
+    simp only [parsePageKids] at h
+    split at h
+    · split at h
+      · cases h
+      · rename_i rest hrest
+        injection h with h; subst h
+        exact Nat.le_trans (Nat.le_succ n) (parsePageKids_next raising cid (n + 1) ss rest hrest)
+    · split at h
+      · exact parsePageKids_next raising cid n ss ks h
+      · split at h
+        · cases h
+        · exact parsePageKids_next raising cid n ss ks h
+
+mutual
+theorem parseMediaKid_ids (raising : Bool) (d : Dict) (cid n : Nat) :
+    (s : Spec) → (rn : Rule × Nat) → parseMediaKid raising d cid n s = .ok (some rn) → rn.1.id = n ∧ n < rn.2
+  | ⟨k, pre, uri, enc, used, kids⟩, rn, h => by
+    simp only [parseMediaKid] at h
+    split at h
+    · split at h <;> cases h
+    · split at h
+      · split at h <;> cases h
+      · split at h
+        · split at h
+          · injection h with h; injection h with h; subst h; exact ⟨rfl, Nat.lt_succ_self n⟩
+          · split at h <;> cases h
+        · split at h
+          · split at h
+            · cases h
+            · rename_i ks hks
+              injection h with h; injection h with h; subst h
+              exact ⟨rfl, Nat.lt_of_lt_of_le (Nat.lt_succ_self n) (parseMediaKids_next raising d n (n + 1) kids ks hks)⟩
+          · split at h
+            · split at h
+              · cases h
+              · rename_i ks hks
+                injection h with h; injection h with h; subst h
+                exact ⟨rfl, Nat.lt_of_lt_of_le (Nat.lt_succ_self n) (parsePageKids_next raising n (n + 1) kids ks hks)⟩
+            · split at h
+              · injection h with h; injection h with h; subst h; exact ⟨rfl, Nat.lt_succ_self n⟩
+              · injection h with h; injection h with h; subst h; exact ⟨rfl, Nat.lt_succ_self n⟩
+theorem parseMediaKids_next (raising : Bool) (d : Dict) (cid n : Nat) :
+    (l : List Spec) → (ks : List Rule × Nat) → parseMediaKids raising d cid n l = .ok ks → n ≤ ks.2
+  | [], ks, h => by
+    simp only [parseMediaKids] at h; injection h with h; subst h; exact Nat.le_refl _
+  | s :: ss, ks, h => by
+    simp only [parseMediaKids] at h
+    split at h
+    · cases h
+    · exact parseMediaKids_next raising d cid n ss ks h
+    · rename_i rn hrn
+      split at h
+      · cases h
+      · rename_i rest hrest
+        injection h with h; subst h
+        exact Nat.le_trans (Nat.le_of_lt (parseMediaKid_ids raising d cid n s rn hrn).2)
+          (parseMediaKids_next raising d cid rn.2 ss rest hrest)
 end
 
 /-! ### `insertCore`: nested kinds, live links, links of dropped objects -/
@@ -1181,7 +1269,7 @@ theorem insertCore_kidsOK (st : St) (dict : Dict) (r : Rule) (idx : Nat) (inOrde
         · have hsub := cleanNamespaces_sublist (pyInsert st.rules i r)
           dsimp only
           split
-          · exact hins i r hr _ hsub
+          · exact hins i r hr _ ((removeId_sublist _ _).trans hsub)
           · split
             · intro x hx
               obtain ⟨y, hy, ⟨h, _⟩ | ⟨h, _⟩⟩ := mem_adoptId (show x ∈ adoptId r.id _ from hx)
@@ -1232,24 +1320,60 @@ theorem insertCore_goneOK (st : St) (dict : Dict) (r : Rule) (idx : Nat) (inOrde
       · split
         · dsimp only
           split
-          · exact hrem i
+          · intro g hg'
+            rcases List.mem_append.mp hg' with h | h
+            · exact hrem i g h
+            · split at h
+              · have : g = r := by simpa using h
+                rw [this]; exact hr
+              · cases h
           · split
             · exact hrem i
             · exact hrem i
         · exact hg
     · exact hg
 
-/-- live links after `insertCore`, unless the clean-up's `deleteRule` raised (known finding C09-clean-refused-halfway) -/
+theorem removeId_no (i : Nat) (l : List Rule) (h : l.countP (fun x => decide (x.id = i)) ≤ 1) :
+    ∀ x ∈ removeId i l, x.id ≠ i := by
+  induction l with
+  | nil => intro x hx; cases hx
+  | cons r rs ih =>
+    unfold removeId
+    split
+    · rename_i hr
+      rw [List.countP_cons_of_pos (by simpa using hr)] at h
+      have h0 : rs.countP (fun x => decide (x.id = i)) = 0 := by omega
+      rw [List.countP_eq_zero] at h0
+      intro x hx
+      simpa using h0 x hx
+    · rename_i hr
+      rw [List.countP_cons_of_neg (by simpa using hr)] at h
+      intro x hx
+      rcases List.mem_cons.mp hx with hx | hx
+      · rw [hx]; exact hr
+      · exact ih h x hx
+
+theorem countP_pyInsert_fresh (l : List Rule) (i : Nat) (r : Rule) (hf : ∀ x ∈ l, x.id ≠ r.id) :
+    (pyInsert l i r).countP (fun x => decide (x.id = r.id)) = 1 := by
+  unfold pyInsert
+  rw [List.countP_append, List.countP_cons_of_pos (by simp)]
+  have h1 : (l.take i).countP (fun x => decide (x.id = r.id)) = 0 := by
+    rw [List.countP_eq_zero]; intro x hx; simpa using hf x (List.mem_of_mem_take hx)
+  have h2 : (l.drop i).countP (fun x => decide (x.id = r.id)) = 0 := by
+    rw [List.countP_eq_zero]; intro x hx; simpa using hf x (List.mem_of_mem_drop hx)
+  omega
+
+/-- live links after `insertCore` — also when the clean-up's `deleteRule` raised (the new rule is taken out again) -/
 theorem insertCore_linksOK (st : St) (dict : Dict) (r : Rule) (idx : Nat) (inOrder clean track : Bool)
     (hl : ∀ x ∈ st.rules, x.linksOK none true = true) (hr : r.linksOK none false = true)
-    (hreg : (insertCore st dict r idx inOrder clean track).2 ≠ .err .noMod) :
+    (hfresh : ∀ x ∈ st.rules, x.id ≠ r.id) :
     ∀ x ∈ (insertCore st dict r idx inOrder clean track).1.rules, x.linksOK none true = true := by
   have hins : ∀ i, ∀ x ∈ pyInsert st.rules i r.adopt, x.linksOK none true = true := by
     intro i x hx
     rcases mem_pyInsert hx with h | h
     · rw [h]; exact adopt_linksOK hr
     · exact hl x h
-  unfold insertCore at hreg ⊢
+  unfold insertCore
   split
   · exact hl
   · intro x hx
@@ -1257,27 +1381,24 @@ theorem insertCore_linksOK (st : St) (dict : Dict) (r : Rule) (idx : Nat) (inOrd
     · exact hl x h
     · rw [h, enc_linksOK]; exact hl y hy
   · rename_i i hp
-    simp only [hp] at hreg
     split
-    · rename_i hns
-      simp only [hns, if_true] at hreg
-      split
+    · split
       · exact hl
-      · rename_i hdup
-        simp only [hdup] at hreg
-        split
-        · rename_i hcl
-          simp only [hcl, if_true] at hreg
-          have hsub := cleanNamespaces_sublist (pyInsert st.rules i r)
-          dsimp only at hreg ⊢
+      · split
+        · have hsub := cleanNamespaces_sublist (pyInsert st.rules i r)
+          dsimp only
           split
-          · rename_i e he
-            simp only [he] at hreg
-            -- the only exception `cleanLoop` produces is NoModificationAllowedErr
-            exfalso
-            have := cleanLoop_err _ _ _ _ e (by simpa [cleanNamespaces] using he)
-            subst this
-            exact hreg rfl
+          · -- the clean-up raised: the candidate is taken out, everything left was there before
+            intro x hx
+            have hx' : x ∈ removeId r.id (cleanNamespaces (pyInsert st.rules i r)).1 := hx
+            have hcount : (cleanNamespaces (pyInsert st.rules i r)).1.countP (fun x => decide (x.id = r.id)) ≤ 1 := by
+              have := hsub.countP_le (p := fun x => decide (x.id = r.id))
+              rw [countP_pyInsert_fresh _ _ _ hfresh] at this
+              exact this
+            have hne := removeId_no _ _ hcount x hx'
+            rcases mem_pyInsert (hsub.subset ((removeId_sublist _ _).subset hx')) with h' | h'
+            · rw [h'] at hne; exact absurd rfl hne
+            · exact hl x h'
           · split
             · intro x hx
               obtain ⟨y, hy, ⟨h, hid⟩ | ⟨h, hid⟩⟩ := mem_adoptId (show x ∈ adoptId r.id _ from hx)
@@ -1300,12 +1421,47 @@ theorem insertCore_linksOK (st : St) (dict : Dict) (r : Rule) (idx : Nat) (inOrd
         · exact hins i
     · exact hins i
 
+/-- ids: every rule of the list after `insertCore` is the candidate or has the id of a rule that was there -/
+theorem insertCore_ids (st : St) (dict : Dict) (r : Rule) (idx : Nat) (inOrder clean track : Bool) :
+    ∀ x ∈ (insertCore st dict r idx inOrder clean track).1.rules, x.id = r.id ∨ ∃ y ∈ st.rules, y.id = x.id := by
+  have hins : ∀ i (r' : Rule), r'.id = r.id → ∀ l : List Rule, l.Sublist (pyInsert st.rules i r') →
+      ∀ x ∈ l, x.id = r.id ∨ ∃ y ∈ st.rules, y.id = x.id := by
+    intro i r' hr' l hl x hx
+    rcases mem_pyInsert (hl.subset hx) with h | h
+    · rw [h]; exact Or.inl hr'
+    · exact Or.inr ⟨x, h, rfl⟩
+  unfold insertCore
+  split
+  · intro x hx; exact Or.inr ⟨x, hx, rfl⟩
+  · intro x hx
+    rcases mem_setEnc0 (show x ∈ setEnc0 r.enc st.rules from hx) with h | ⟨y, hy, h⟩
+    · exact Or.inr ⟨x, h, rfl⟩
+    · exact Or.inr ⟨y, hy, by rw [h]⟩
+  · rename_i i _
+    split
+    · split
+      · intro x hx; exact Or.inr ⟨x, hx, rfl⟩
+      · split
+        · have hsub := cleanNamespaces_sublist (pyInsert st.rules i r)
+          dsimp only
+          split
+          · exact hins i r rfl _ ((removeId_sublist _ _).trans hsub)
+          · split
+            · intro x hx
+              obtain ⟨y, hy, ⟨h, _⟩ | ⟨h, _⟩⟩ := mem_adoptId (show x ∈ adoptId r.id _ from hx)
+              · rw [h]; exact hins i r rfl _ hsub y hy
+              · rw [h]; exact hins i r rfl _ hsub y hy
+            · exact hins i r rfl _ hsub
+        · exact hins i r.adopt rfl _ (List.Sublist.refl _)
+    · exact hins i r.adopt rfl _ (List.Sublist.refl _)
+
 /-! ### the invariant besides the order -/
 
 structure Inv (st : St) : Prop where
   kids : ∀ r ∈ st.rules, r.kidsOK = true
   links : ∀ r ∈ st.rules, r.linksOK none true = true
   gone : ∀ g ∈ st.gone, g.linksOK none false = true
+  ids : ∀ r ∈ st.rules, r.id < st.next
 
 theorem mergesCharset_iff (st : St) (k : Kind) (idx : Nat) (inOrder : Bool) :
     mergesCharset st k idx inOrder = true ↔
@@ -1328,15 +1484,37 @@ theorem mergesCharset_iff (st : St) (k : Kind) (idx : Nat) (inOrder : Bool) :
   · rintro ⟨hk, hio, hf⟩
     simp [hk, hio, hf]
 
+/-- `insertCore` for a candidate whose id is above every id of the list and below `next` -/
 theorem insertCore_inv (st : St) (dict : Dict) (r : Rule) (idx : Nat) (inOrder clean track : Bool)
-    (h : Inv st) (hrk : r.kidsOK = true) (hrl : r.linksOK none false = true)
-    (hmerge : ¬ (track = true ∧ r.kind = .charset ∧ inOrder = true ∧ firstIs [.charset] (kindsOf st.rules) = true))
-    (hnomod : (insertCore st dict r idx inOrder clean track).2 ≠ .err .noMod) :
-    Inv (insertCore st dict r idx inOrder clean track).1 :=
-  ⟨insertCore_kidsOK st dict r idx inOrder clean track h.kids hrk,
-   insertCore_linksOK st dict r idx inOrder clean track h.links hrl hnomod,
-   insertCore_goneOK st dict r idx inOrder clean track h.links h.gone hrl (by
-     intro ⟨ht, hm⟩; exact hmerge ⟨ht, (mergesCharset_iff st r.kind idx inOrder).mp hm⟩)⟩
+    (hk : ∀ x ∈ st.rules, x.kidsOK = true) (hl : ∀ x ∈ st.rules, x.linksOK none true = true)
+    (hg : ∀ g ∈ st.gone, g.linksOK none false = true) (hlt : ∀ x ∈ st.rules, x.id < r.id) (hn : r.id < st.next)
+    (hrk : r.kidsOK = true) (hrl : r.linksOK none false = true)
+    (hmerge : ¬ (track = true ∧ r.kind = .charset ∧ inOrder = true ∧ firstIs [.charset] (kindsOf st.rules) = true)) :
+    Inv (insertCore st dict r idx inOrder clean track).1 := by
+  refine ⟨insertCore_kidsOK st dict r idx inOrder clean track hk hrk,
+   insertCore_linksOK st dict r idx inOrder clean track hl hrl (fun x hx => Nat.ne_of_lt (hlt x hx)),
+   insertCore_goneOK st dict r idx inOrder clean track hl hg hrl (by
+     intro ⟨ht, hm⟩; exact hmerge ⟨ht, (mergesCharset_iff st r.kind idx inOrder).mp hm⟩), ?_⟩
+  intro x hx
+  have hnext : (insertCore st dict r idx inOrder clean track).1.next = st.next := by
+    unfold insertCore
+    split
+    · rfl
+    · rfl
+    · split
+      · split
+        · rfl
+        · split
+          · dsimp only
+            split
+            · rfl
+            · split <;> rfl
+          · rfl
+      · rfl
+  rw [hnext]
+  rcases insertCore_ids st dict r idx inOrder clean track x hx with h | ⟨y, hy, h⟩
+  · rw [h]; exact hn
+  · rw [← h]; exact Nat.lt_trans (hlt y hy) hn
 
 /-- the rule object a dispatcher callback builds is well nested and fresh (names nothing; children name it) -/
 theorem actOf_ins_ok {raising : Bool} {p : PSt} {s : Spec} {r : Rule} {nx : Nat} {nd : Dict} {cl : Bool}
@@ -1375,29 +1553,56 @@ theorem actOf_ins_ok {raising : Bool} {p : PSt} {s : Spec} {r : Rule} {nx : Nat}
             refine ⟨?_, by simp [Rule.linksOK, Rule.linksOKL]⟩
             simp [Rule.kidsOK, Rule.kidsOKL]
 
+theorem actOf_ins_id {raising : Bool} {p : PSt} {s : Spec} {r : Rule} {nx : Nat} {nd : Dict} {cl : Bool}
+    (h : actOf raising p s = .ins r nx nd cl) : r.id = p.next ∧ p.next < nx := by
+  unfold actOf at h
+  split at h
+  · cases h
+  · split at h
+    · split at h
+      · cases h
+      · split at h
+        · injection h with h h2; subst h; subst h2; exact ⟨rfl, Nat.lt_succ_self _⟩
+        · cases h
+    · split at h
+      · split at h
+        · injection h with h h2; subst h; subst h2; exact ⟨rfl, Nat.lt_succ_self _⟩
+        · cases h
+      · split at h
+        · split at h
+          · cases h
+          · rename_i ks hks
+            injection h with h h2; subst h; subst h2
+            exact ⟨rfl, Nat.lt_of_lt_of_le (Nat.lt_succ_self _) (parseMediaKids_next _ _ _ _ _ ks hks)⟩
+        · split at h
+          · split at h
+            · cases h
+            · rename_i ks hks
+              injection h with h h2; subst h; subst h2
+              exact ⟨rfl, Nat.lt_of_lt_of_le (Nat.lt_succ_self _) (parsePageKids_next _ _ _ _ ks hks)⟩
+          · injection h with h h2; subst h; subst h2; exact ⟨rfl, Nat.lt_succ_self _⟩
+
 /-- the three shapes of the rule list after one statement, with what is known about an inserted rule -/
 theorem parseOne_acc' {raising : Bool} {p q : PSt} {s : Spec} (h : parseOne raising p s = .ok q) :
-    q.acc = p.acc ∨ q.acc = replaceUri s.pre s.uri p.acc ∨
-    ∃ r cl, r.kind = s.kind ∧ r.kidsOK = true ∧ r.linksOK none false = true ∧
-      q.acc = (pInsert raising p r cl).1 ∧ ∀ e, (pInsert raising p r cl).2 ≠ .err e := by
+    (q.acc = p.acc ∧ q.next = p.next) ∨ (q.acc = replaceUri s.pre s.uri p.acc ∧ q.next = p.next) ∨
+    ∃ r cl, r.kind = s.kind ∧ r.kidsOK = true ∧ r.linksOK none false = true ∧ r.id = p.next ∧ p.next < q.next ∧
+      q.acc = (pInsert raising p r cl).1 := by
   unfold parseOne at h
   split at h
   · cases h
   · split at h
     · cases h
     · injection h with h; subst h
-      left; split <;> rfl
-  · injection h with h; subst h; right; left; rfl
+      left; split <;> exact ⟨rfl, rfl⟩
+  · injection h with h; subst h; right; left; exact ⟨rfl, rfl⟩
   · rename_i r nx nd cl hact
     split at h
     · cases h
     · rename_i acc o hne hres
       injection h with h; subst h
       right; right
-      refine ⟨r, cl, actOf_ins_kind hact, (actOf_ins_ok hact).1, (actOf_ins_ok hact).2, by simp [hres], ?_⟩
-      intro e he
-      rw [hres] at he
-      exact hne e he
+      exact ⟨r, cl, actOf_ins_kind hact, (actOf_ins_ok hact).1, (actOf_ins_ok hact).2, (actOf_ins_id hact).1,
+        (actOf_ins_id hact).2, by simp [hres]⟩
 
 theorem replaceUri_mem {p u : Cps} {l : List Rule} {x : Rule} (h : x ∈ replaceUri p u l) :
     ∃ y ∈ l, x = y ∨ x = { y with uri := u } := by
@@ -1414,37 +1619,47 @@ theorem uri_linksOK (y : Rule) (u : Cps) (p : Option Nat) (s : Bool) :
     ({ y with uri := u } : Rule).linksOK p s = y.linksOK p s := by
   rw [linksOK_eq, linksOK_eq]
 
-/-- every rule of the list being built is well nested and names the sheet -/
-def AccOK (acc : List Rule) : Prop := ∀ x ∈ acc, x.kidsOK = true ∧ x.linksOK none true = true
+/-- every rule of the list being built is well nested, names the sheet, and was created before `next` -/
+def AccOK (p : PSt) : Prop := ∀ x ∈ p.acc, x.kidsOK = true ∧ x.linksOK none true = true ∧ x.id < p.next
 
 theorem parseOne_accOK {raising : Bool} {p q : PSt} {s : Spec} (h : parseOne raising p s = .ok q)
-    (hp : AccOK p.acc) : AccOK q.acc := by
-  rcases parseOne_acc' h with h | h | ⟨r, cl, _, hk, hl, h, hne⟩
-  · rw [h]; exact hp
-  · rw [h]
+    (hp : AccOK p) : AccOK q ∧ p.next ≤ q.next := by
+  rcases parseOne_acc' h with ⟨h, hn⟩ | ⟨h, hn⟩ | ⟨r, cl, _, hk, hl, hid, hlt, h⟩
+  · refine ⟨?_, by omega⟩
+    intro x hx; rw [h] at hx; rw [hn]; exact hp x hx
+  · refine ⟨?_, by omega⟩
     intro x hx
+    rw [h] at hx; rw [hn]
     obtain ⟨y, hy, hxy | hxy⟩ := replaceUri_mem hx
     · rw [hxy]; exact hp y hy
     · rw [hxy, uri_kidsOK, uri_linksOK]; exact hp y hy
-  · rw [h]
+  · refine ⟨?_, by omega⟩
     intro x hx
-    unfold pInsert at hx hne
-    exact ⟨insertCore_kidsOK _ _ _ _ _ _ _ (fun y hy => (hp y hy).1) hk x hx,
-      insertCore_linksOK _ _ _ _ _ _ _ (fun y hy => (hp y hy).2) hl (hne _) x hx⟩
+    rw [h] at hx
+    unfold pInsert at hx
+    refine ⟨insertCore_kidsOK _ _ _ _ _ _ _ (fun y hy => (hp y hy).1) hk x hx,
+      insertCore_linksOK _ _ _ _ _ _ _ (fun y hy => (hp y hy).2.1) hl
+        (fun y hy => by rw [hid]; exact Nat.ne_of_lt (hp y hy).2.2) x hx, ?_⟩
+    rcases insertCore_ids _ _ _ _ _ _ _ x hx with h' | ⟨y, hy, h'⟩
+    · rw [h', hid]; exact hlt
+    · rw [← h']; exact Nat.lt_trans (hp y hy).2.2 hlt
 
 theorem parseTop_accOK {raising : Bool} {specs : List Spec} {p q : PSt} (h : parseTop raising p specs = .ok q)
-    (hp : AccOK p.acc) : AccOK q.acc := by
+    (hp : AccOK p) : AccOK q ∧ p.next ≤ q.next := by
   induction specs generalizing p with
-  | nil => simp only [parseTop] at h; injection h with h; subst h; exact hp
+  | nil => simp only [parseTop] at h; injection h with h; subst h; exact ⟨hp, Nat.le_refl _⟩
   | cons s ss ih =>
     simp only [parseTop] at h
     split at h
     · cases h
     · rename_i p' hp'
-      exact ih h (show AccOK p'.acc from parseOne_accOK hp' hp)
+      have h1 := parseOne_accOK hp' hp
+      have h2 := ih h (show AccOK { p' with level := max 1 p'.level } from h1.1)
+      exact ⟨h2.1, Nat.le_trans h1.2 h2.2⟩
 
 theorem parseCand_ok {raising : Bool} {d : Dict} {n : Nat} {s : Spec} {c : Rule × Nat}
-    (h : parseCand raising d n s = .ok (some c)) : c.1.kidsOK = true ∧ c.1.linksOK none false = true := by
+    (h : parseCand raising d n s = .ok (some c)) :
+    c.1.kidsOK = true ∧ c.1.linksOK none false = true ∧ c.1.id = n ∧ n < c.2 := by
   unfold parseCand at h
   split at h
   · cases h
@@ -1452,19 +1667,26 @@ theorem parseCand_ok {raising : Bool} {d : Dict} {n : Nat} {s : Spec} {c : Rule 
     split at h
     · rename_i r hacc
       injection h with h; injection h with h; subst h
-      have := parseOne_accOK hq (by intro x hx; cases hx) r (by simp [hacc])
-      exact ⟨by simpa using this.1, detach_linksOK this.2⟩
+      have hr : r ∈ q.acc := by simp [hacc]
+      have := (parseOne_accOK hq (by intro x hx; cases hx)).1 r hr
+      refine ⟨by simpa using this.1, detach_linksOK this.2.1, ?_, ?_⟩
+      · -- the only rule of the temp sheet is the one the callback built, with id `n`
+        rcases parseOne_acc' hq with ⟨h', _⟩ | ⟨h', _⟩ | ⟨r', cl, _, _, _, hid, _, h'⟩
+        · rw [hacc] at h'; cases h'
+        · rw [hacc] at h'; simp [replaceUri] at h'
+        · have hx : r ∈ (pInsert raising { acc := [], nd := d, level := 0, next := n } r' cl).1 := by rw [← h']; exact hr
+          unfold pInsert at hx
+          rcases insertCore_ids _ _ _ _ _ _ _ r hx with h'' | ⟨y, hy, _⟩
+          · show r.id = n
+            rw [h'', hid]
+          · cases hy
+      · rcases parseOne_acc' hq with ⟨h', _⟩ | ⟨h', _⟩ | ⟨r', cl, _, _, _, _, hlt, _⟩
+        · rw [hacc] at h'; cases h'
+        · rw [hacc] at h'; simp [replaceUri] at h'
+        · exact hlt
     · cases h
 
 /-! ### operations on the sheet's own list keep `Inv` outside the regions -/
-
-theorem inv_gone_append {st : St} (h : Inv st) (held : List Rule) (hh : ∀ g ∈ held, g.linksOK none false = true) :
-    Inv { st with gone := st.gone ++ held } :=
-  ⟨h.kids, h.links, by
-    intro g hg
-    rcases List.mem_append.mp hg with hg | hg
-    · exact h.gone g hg
-    · exact hh g hg⟩
 
 theorem place_reject {l : List Kind} {k : Kind} {idx : Nat} {io : Bool} {e : Err}
     (h : place l k idx io = .reject e) : e = .hierarchy := by
@@ -1476,45 +1698,29 @@ theorem place_reject {l : List Kind} {k : Kind} {idx : Nat} {io : Bool} {e : Err
 theorem logError_ne {raising : Bool} {e e' : Err} (h : e ≠ e') : logError raising e ≠ .err e' := by
   unfold logError; split <;> simp [h]
 
-/-- only an insert of a @namespace rule can raise NoModificationAllowedErr -/
-theorem insertCore_noMod (st : St) (dict : Dict) (r : Rule) (idx : Nat) (inOrder clean track : Bool)
-    (hk : r.kind ≠ .ns) : (insertCore st dict r idx inOrder clean track).2 ≠ .err .noMod := by
-  unfold insertCore
-  split
-  · rename_i e he
-    rw [place_reject he]
-    exact logError_ne (by decide)
-  · simp
-  · split
-    · rename_i h; exact absurd h hk
-    · simp
-
 theorem insertRule_inv (st : St) (s : Spec) (index : Option Int) (inOrder viaStr track : Bool) (h : Inv st)
     (hs : viaStr = true ∨ s.kidsOK = true)
     (hmerge : ¬ (track = true ∧ viaStr = false ∧ s.kind = .charset ∧ inOrder = true ∧
-      firstIs [.charset] (kindsOf st.rules) = true ∧ (idxOf index st.rules.length).isSome = true))
-    (hnomod : (insertRule st s index inOrder viaStr track).2 ≠ .err .noMod) :
+      firstIs [.charset] (kindsOf st.rules) = true ∧ (idxOf index st.rules.length).isSome = true)) :
     Inv (insertRule st s index inOrder viaStr track).1 := by
-  unfold insertRule at hnomod ⊢
-  dsimp only at hnomod ⊢
+  unfold insertRule
+  dsimp only
   split
   · rename_i hv
-    simp only [hv, if_true] at hnomod
     split
     · exact h
     · rename_i idx hi
-      simp only [hi] at hnomod
       split
       · exact h
       · exact h
       · rename_i c hc
-        simp only [hc] at hnomod
         have hc' := parseCand_ok hc
-        refine insertCore_inv { rules := st.rules, gone := st.gone, next := _, raising := st.raising }
-          _ _ _ _ _ _ ⟨h.kids, h.links, h.gone⟩ hc'.1 hc'.2 (by simp) hnomod
+        refine insertCore_inv { rules := st.rules, gone := st.gone, next := c.2, raising := st.raising }
+          _ _ _ _ _ _ h.kids h.links h.gone ?_ ?_ hc'.1 hc'.2.1 (by simp)
+        · intro x hx; rw [hc'.2.2.1]; exact h.ids x hx
+        · rw [hc'.2.2.1]; exact hc'.2.2.2
   · rename_i hv
     have hv' : viaStr = false := by simpa using hv
-    simp only [hv] at hnomod
     have hfresh : ∀ g ∈ (if track = true then [(Spec.inst none st.next s).1] else []),
         g.linksOK none false = true := by
       intro g hg
@@ -1528,23 +1734,26 @@ theorem insertRule_inv (st : St) (s : Spec) (index : Option Int) (inOrder viaStr
       rcases List.mem_append.mp hg with hg | hg
       · exact h.gone g hg
       · exact hfresh g hg
+    have hids : ∀ x ∈ st.rules, x.id < (Spec.inst none st.next s).2 :=
+      fun x hx => Nat.lt_trans (h.ids x hx) (inst_next none st.next s)
     split
-    · exact ⟨h.kids, h.links, hheld⟩
+    · exact ⟨h.kids, h.links, hheld, hids⟩
     · rename_i idx hi
-      simp only [hi] at hnomod
       split
-      · exact ⟨h.kids, h.links, hheld⟩
+      · exact ⟨h.kids, h.links, hheld, hids⟩
       · rename_i hwf
-        simp only [hwf] at hnomod
         have hsk : s.kidsOK = true := by
           rcases hs with hs | hs
           · rw [hv'] at hs; cases hs
           · exact hs
-        refine insertCore_inv { rules := st.rules, gone := st.gone, next := _, raising := st.raising }
-          _ _ _ _ _ _ ⟨h.kids, h.links, h.gone⟩ (inst_kidsOK none st.next s hsk) (inst_linksOK none st.next s) ?_ hnomod
-        rw [inst_kind]
-        intro ⟨ht, hk, hio, hf⟩
-        exact hmerge ⟨ht, hv', hk, hio, hf, by simp [hi]⟩
+        refine insertCore_inv
+          { rules := st.rules, gone := st.gone, next := (Spec.inst none st.next s).2, raising := st.raising }
+          _ _ _ _ _ _ h.kids h.links h.gone ?_ ?_ (inst_kidsOK none st.next s hsk) (inst_linksOK none st.next s) ?_
+        · intro x hx; rw [inst_id]; exact h.ids x hx
+        · rw [inst_id]; exact inst_next none st.next s
+        · rw [inst_kind]
+          intro ⟨ht, hk, hio, hf⟩
+          exact hmerge ⟨ht, hv', hk, hio, hf, by simp [hi]⟩
 
 theorem deleteRule_inv (st : St) (i : Int) (h : Inv st) : Inv (deleteRule st i).1 := by
   unfold deleteRule
@@ -1557,7 +1766,8 @@ theorem deleteRule_inv (st : St) (i : Int) (h : Inv st) : Inv (deleteRule st i).
       split
       · exact h
       · have hsub : (st.rules.eraseIdx n).Sublist st.rules := List.eraseIdx_sublist _ _
-        refine ⟨fun x hx => h.kids x (hsub.subset hx), fun x hx => h.links x (hsub.subset hx), ?_⟩
+        refine ⟨fun x hx => h.kids x (hsub.subset hx), fun x hx => h.links x (hsub.subset hx), ?_,
+          fun x hx => h.ids x (hsub.subset hx)⟩
         intro g hg
         rcases List.mem_append.mp hg with hg | hg
         · exact h.gone g hg
@@ -1583,16 +1793,7 @@ theorem setEncoding_inv (st : St) (e : Cps) (valid : Bool) (h : Inv st) : Inv (s
     · exact h
     · split
       · exact h
-      · apply insertRule_inv st _ _ false false false h (Or.inr (by simp [Spec.kidsOK, Spec.kidsOKL])) (by simp)
-        -- a @charset insert never runs the namespace clean-up
-        unfold insertRule
-        dsimp only
-        simp only [Bool.false_eq_true, if_false]
-        split
-        · simp
-        · split
-          · exact logError_ne (by decide)
-          · exact insertCore_noMod _ _ _ _ _ _ _ (by rw [inst_kind]; simp)
+      · exact insertRule_inv st _ _ false false false h (Or.inr (by simp [Spec.kidsOK, Spec.kidsOKL])) (by simp)
   unfold setEncoding
   dsimp only
   split
@@ -1601,7 +1802,7 @@ theorem setEncoding_inv (st : St) (e : Cps) (valid : Bool) (h : Inv st) : Inv (s
     split
     · split
       · split
-        · refine ⟨?_, ?_, h.gone⟩
+        · refine ⟨?_, ?_, h.gone, ?_⟩
           · intro x hx
             rcases List.mem_cons.mp hx with hx | hx
             · rw [hx, enc_kidsOK]; exact h.kids r (by simp [hr])
@@ -1610,6 +1811,10 @@ theorem setEncoding_inv (st : St) (e : Cps) (valid : Bool) (h : Inv st) : Inv (s
             rcases List.mem_cons.mp hx with hx | hx
             · rw [hx, enc_linksOK]; exact h.links r (by simp [hr])
             · exact h.links x (by simp [hr, hx])
+          · intro x hx
+            rcases List.mem_cons.mp hx with hx | hx
+            · rw [hx]; exact h.ids r (by simp [hr])
+            · exact h.ids x (by simp [hr, hx])
         · exact h
       · exact deleteRule_inv st 0 h
     · exact hfresh
@@ -1620,16 +1825,10 @@ theorem nsDel_inv (st : St) (p : Cps) (h : Inv st) : Inv (nsDel st p).1 := by
   · exact deleteRule_inv st _ h
   · exact h
 
-theorem nsSet_inv (st : St) (p u : Cps) (h : Inv st)
-    (hreg : ¬ (findNsIdx p st.rules = none ∧ (nsSet st p u).2 = .err .noMod)) : Inv (nsSet st p u).1 := by
-  unfold nsSet at hreg ⊢
+theorem nsSet_inv (st : St) (p u : Cps) (h : Inv st) : Inv (nsSet st p u).1 := by
+  unfold nsSet
   split
-  · rename_i hf
-    simp only [hf, true_and] at hreg
-    apply insertRule_inv st _ none true false false h (Or.inr (by simp [Spec.kidsOK, Spec.kidsOKL])) (by simp)
-    intro hn
-    apply hreg
-    simp [hn]
+  · exact insertRule_inv st _ none true false false h (Or.inr (by simp [Spec.kidsOK, Spec.kidsOKL])) (by simp)
   · split
     · exact h
     · split <;> exact h
@@ -1643,13 +1842,14 @@ theorem setText_inv (st : St) (specs : List Spec) (h : Inv st)
   split
   · exact h
   · rename_i p hp
-    have hacc := parseTop_accOK hp (by intro x hx; cases hx)
+    have hacc := (parseTop_accOK hp (by intro x hx; cases hx)).1
     have hsub := cleanNamespaces_sublist p.acc
     have hnil : st.rules = [] := by
       cases hr : st.rules with
       | nil => rfl
       | cons a t => exact absurd ⟨by simp [hr], by simp [hp, Except.isOk, Except.toBool]⟩ hreg
-    refine ⟨fun x hx => (hacc x (hsub.subset hx)).1, fun x hx => (hacc x (hsub.subset hx)).2, ?_⟩
+    refine ⟨fun x hx => (hacc x (hsub.subset hx)).1, fun x hx => (hacc x (hsub.subset hx)).2.1, ?_,
+      fun x hx => (hacc x (hsub.subset hx)).2.2⟩
     intro g hg
     simp only [hnil, List.append_nil] at hg
     exact h.gone g hg
@@ -1783,13 +1983,41 @@ theorem allOK_top_iff {l : List Rule} (h : allOK (fun _ => true) l = true) : ∀
   have := (List.all_eq_true.mp h) x hx
   simpa using this
 
+theorem ids_set_same (l : List Rule) (i : Nat) (c c0 : Rule) (h0 : l[i]? = some c0) (hk : c.id = c0.id) :
+    (l.set i c).map (·.id) = l.map (·.id) := by
+  rw [List.map_set, hk]
+  apply List.ext_getElem?
+  intro j
+  by_cases hj : i = j
+  · subst hj
+    rw [List.getElem?_set_self']
+    simp [h0]
+  · rw [List.getElem?_set_ne hj]
+
+theorem ids_setPath (rules : List Rule) (path : List Nat) (c c0 : Rule)
+    (h0 : atPath rules path = some c0) (hk : c.id = c0.id) :
+    (setPath rules c path).map (·.id) = rules.map (·.id) := by
+  match path with
+  | [] => simp [atPath] at h0
+  | [i] =>
+    simp only [atPath] at h0
+    simp only [setPath]
+    exact ids_set_same rules i c c0 h0 hk
+  | i :: j :: p =>
+    simp only [atPath] at h0
+    simp only [setPath]
+    split
+    · rfl
+    · rename_i r hr
+      exact ids_set_same rules i _ r hr rfl
+
 /-- replacing a container in the tree by one with the same header whose own list is fine keeps `Inv` -/
 theorem inv_setPath {st : St} (h : Inv st) (path : List Nat) (c c0 : Rule) (n : Nat) (extra : List Rule)
     (h0 : atPath st.rules path = some c0) (hk : c.kind = c0.kind) (hid : c.id = c0.id) (hpss : c.pss = c0.pss)
     (hpr : c.prule = c0.prule) (hkids : c.kidsOK = true) (hlinks : Rule.linksOKL (some c.id) c.kids = true)
-    (hextra : ∀ g ∈ extra, g.linksOK none false = true) :
+    (hextra : ∀ g ∈ extra, g.linksOK none false = true) (hn : st.next ≤ n) :
     Inv { rules := setPath st.rules c path, gone := st.gone ++ extra, next := n, raising := st.raising } := by
-  refine ⟨?_, ?_, ?_⟩
+  refine ⟨?_, ?_, ?_, ?_⟩
   · exact allOK_top_iff (allOK_setPath _ _ _ _ _ (inv_top_allOK h) h0 hk hkids)
   · have := linksAll_setPath none true _ _ _ _ (inv_top_linksAll h) h0 hid hpss hpr hlinks
     exact List.all_eq_true.mp this
@@ -1797,6 +2025,12 @@ theorem inv_setPath {st : St} (h : Inv st) (path : List Nat) (c c0 : Rule) (n : 
     rcases List.mem_append.mp hg with hg | hg
     · exact h.gone g hg
     · exact hextra g hg
+  · intro x hx
+    have : x.id ∈ (setPath st.rules c path).map (·.id) := List.mem_map.mpr ⟨x, hx, rfl⟩
+    rw [ids_setPath _ _ _ _ h0 hid] at this
+    obtain ⟨y, hy, hyx⟩ := List.mem_map.mp this
+    show x.id < n
+    rw [← hyx]; exact Nat.lt_of_lt_of_le (h.ids y hy) hn
 
 theorem cInsert_header (raising : Bool) (c r : Rule) (index : Option Int) (viaStr : Bool) :
     (cInsert raising c r index viaStr).1.id = c.id ∧ (cInsert raising c r index viaStr).1.pss = c.pss ∧
@@ -1882,9 +2116,10 @@ theorem nInsert_inv (st : St) (path : List Nat) (s : Spec) (index : Option Int) 
           · rename_i i hi
             have hi' := parseCand_ok hi
             have hhead := cInsert_header st.raising c i.1 index true
-            have hl := cInsert_links st.raising c i.1 index true hcl hi'.2
+            have hl := cInsert_links st.raising c i.1 index true hcl hi'.2.1
             exact inv_setPath h path _ c _ _ hc (cInsert_kind _ _ _ _ _) hhead.1 hhead.2.1 hhead.2.2
               (cInsert_kidsOK _ _ _ _ _ hck hi'.1 (by rw [parseCand_kind hi]; exact hreg c hc)) hl.1 hl.2
+              (Nat.le_of_lt hi'.2.2.2)
       · rename_i hv
         have hsk : s.kidsOK = true := by
           rcases hs with hs | hs
@@ -1894,6 +2129,7 @@ theorem nInsert_inv (st : St) (path : List Nat) (s : Spec) (index : Option Int) 
         have hl := cInsert_links st.raising c (Spec.inst none st.next s).1 index false hcl (inst_linksOK none st.next s)
         exact inv_setPath h path _ c _ _ hc (cInsert_kind _ _ _ _ _) hhead.1 hhead.2.1 hhead.2.2
           (cInsert_kidsOK _ _ _ _ _ hck (inst_kidsOK none st.next s hsk) (by rw [inst_kind]; exact hreg c hc)) hl.1 hl.2
+          (Nat.le_of_lt (inst_next none st.next s))
 
 theorem nDelete_inv (st : St) (path : List Nat) (i : Int) (h : Inv st) : Inv (nDelete st path i).1 := by
   unfold nDelete
@@ -1906,15 +2142,15 @@ theorem nDelete_inv (st : St) (path : List Nat) (i : Int) (h : Inv st) : Inv (nD
     · exact h
     · unfold cDelete
       split
-      · have := inv_setPath h path c c st.next [] hc rfl rfl rfl rfl hck hcl (by intro g hg; cases hg)
+      · have := inv_setPath h path c c st.next [] hc rfl rfl rfl rfl hck hcl (by intro g hg; cases hg) (Nat.le_refl _)
         simpa using this
       · rename_i n _
         split
-        · have := inv_setPath h path c c st.next [] hc rfl rfl rfl rfl hck hcl (by intro g hg; cases hg)
+        · have := inv_setPath h path c c st.next [] hc rfl rfl rfl rfl hck hcl (by intro g hg; cases hg) (Nat.le_refl _)
           simpa using this
         · rename_i k hk
           have hsub : (c.kids.eraseIdx n).Sublist c.kids := List.eraseIdx_sublist _ _
-          refine inv_setPath h path _ c st.next _ hc rfl rfl rfl rfl ?_ ?_ ?_
+          refine inv_setPath h path _ c st.next _ hc rfl rfl rfl rfl ?_ ?_ ?_ (Nat.le_refl _)
           · rw [kidsOK_eq, kidsOKL_eq] at hck ⊢
             rw [List.all_eq_true] at hck ⊢
             intro x hx; exact hck x (hsub.subset hx)
@@ -1948,7 +2184,7 @@ theorem nSetText_inv (st : St) (path : List Nat) (kids : List Spec) (h : Inv st)
       unfold cSetText at hreg' ⊢
       dsimp only at hreg' ⊢
       split
-      · have := inv_setPath h path c c st.next [] hc rfl rfl rfl rfl hck hcl (by intro g hg; cases hg)
+      · have := inv_setPath h path c c st.next [] hc rfl rfl rfl rfl hck hcl (by intro g hg; cases hg) (Nat.le_refl _)
         simpa using this
       · rename_i ks hks
         simp only [hks] at hreg'
@@ -1956,10 +2192,12 @@ theorem nSetText_inv (st : St) (path : List Nat) (kids : List Spec) (h : Inv st)
           cases hk : c.kids with
           | nil => rfl
           | cons a t => exact absurd rfl (hreg' (by simp [hk]))
-        have hnew : Rule.kidsOKL c.kind ks.1 = true ∧ Rule.linksOKL (some c.id) ks.1 = true := by
+        have hnew : Rule.kidsOKL c.kind ks.1 = true ∧ Rule.linksOKL (some c.id) ks.1 = true ∧ st.next ≤ ks.2 := by
           split at hks
           · rename_i hm
-            rw [hm]; exact parseMediaKids_ok _ _ _ _ _ ks hks
+            rw [hm]
+            exact ⟨(parseMediaKids_ok _ _ _ _ _ ks hks).1, (parseMediaKids_ok _ _ _ _ _ ks hks).2,
+              parseMediaKids_next _ _ _ _ _ ks hks⟩
           · rename_i hm
             have hp : c.kind = .page := by
               unfold isContainer at hcont'
@@ -1967,8 +2205,10 @@ theorem nSetText_inv (st : St) (path : List Nat) (kids : List Spec) (h : Inv st)
               rcases hcont' with h' | h'
               · exact absurd h' hm
               · exact h'
-            rw [hp]; exact parsePageKids_ok _ _ _ _ ks hks
-        refine inv_setPath h path _ c _ _ hc rfl rfl rfl rfl ?_ hnew.2 ?_
+            rw [hp]
+            exact ⟨(parsePageKids_ok _ _ _ _ ks hks).1, (parsePageKids_ok _ _ _ _ ks hks).2,
+              parsePageKids_next _ _ _ _ ks hks⟩
+        refine inv_setPath h path _ c _ _ hc rfl rfl rfl rfl ?_ hnew.2.1 ?_ hnew.2.2
         · rw [kidsOK_eq]; exact hnew.1
         · intro g hg; rw [hnil] at hg; cases hg
 
@@ -1976,10 +2216,10 @@ theorem validB_iff (st : St) : validB st = true ↔ Valid st := by
   unfold validB
   simp only [Bool.and_eq_true, decide_eq_true_eq, List.all_eq_true]
   constructor
-  · rintro ⟨⟨h1, h2⟩, h3⟩
-    exact ⟨h1, fun r hr => (h2 r hr).1, fun r hr => (h2 r hr).2, h3⟩
+  · rintro ⟨⟨⟨h1, h2⟩, h3⟩, h4⟩
+    exact ⟨h1, fun r hr => (h2 r hr).1, fun r hr => (h2 r hr).2, h3, h4⟩
   · intro h
-    exact ⟨⟨h.top, fun r hr => ⟨h.kids r hr, h.links r hr⟩⟩, h.gone⟩
+    exact ⟨⟨⟨h.top, fun r hr => ⟨h.kids r hr, h.links r hr⟩⟩, h.gone⟩, h.ids⟩
 
 /-- in a valid state the public getter `parentStyleSheet` answers the sheet for every rule of the sheet's list and
 for every rule directly inside one of them -/
